@@ -289,8 +289,26 @@ def run(ctx):
                 lits = [x.value for x in walk_no_nested(n.comparators[0]) if isinstance(x, ast.Constant) and isinstance(x.value, str)]
                 if lits and all(x.isspace() for x in lits):
                     ws.append((m, n, "== %r" % lits))
+    # a membership test of the current character in a constant that holds only whitespace (a class attribute, a module constant)
+    for m in methods.values():
+        for n in walk_no_nested(m.node):
+            if isinstance(n, ast.Compare) and len(n.ops) == 1 and isinstance(n.ops[0], ast.In) and is_self_attr(n.left) and n.left.attr == valid_attr and not isinstance(n.comparators[0], (ast.List, ast.Tuple, ast.Set, ast.Constant)):
+                cst = None
+                cmp_ = n.comparators[0]
+                if isinstance(cmp_, ast.Attribute) and isinstance(cmp_.value, ast.Name) and cmp_.value.id in ("self", "cls", m.cls.name if m.cls else ""):
+                    cst = m.cls.attrs.get(cmp_.attr) if m.cls else None
+                elif isinstance(cmp_, ast.Name):
+                    rr_ = ctx.p.resolve_in_func(m, cmp_.id)
+                    cst = rr_[1] if isinstance(rr_, tuple) and rr_[0] == "const" else None
+                if isinstance(cst, ast.Constant) and isinstance(cst.value, str) and cst.value and cst.value.isspace():
+                    ws.append((m, n, "in %r" % cst.value))
     kinds = {k for _, _, k in ws}
-    if len(kinds) <= 1:
+    literal = [x for x in ws if x[2] != "isspace()"]
+    if literal and len(kinds) <= 1:
+        m, n, k = literal[0]
+        r.fail(m, n, norm(n), "%s tests whitespace with %s: 'any whitespace' separates tokens (form feed, vertical tab, \\x1c-\\x1f, no-break and ideographic space ...), "
+               "a literal list covers only part of what str.isspace() accepts - such separators end up inside tokens" % (m.short, k))
+    elif len(kinds) <= 1:
         if ws:
             r.ok("all %d whitespace tests use %s" % (len(ws), next(iter(kinds))))
     else:
@@ -372,6 +390,14 @@ def run(ctx):
                 r.fail(m, pc, norm(pc) + " value unused", "%s scans a token and does not append it" % m.short)
     if r.n == 0:
         r.fail(methods.get("_parse") or list(methods.values())[0], (methods.get("_parse") or list(methods.values())[0]).node, "no list-building loop", "no token-list building loop found in the scanner")
+    # ---------------------------------------------------------------- R7
+    from .c05 import scratch_rule
+
+    r = ctx.rule("C08-R7", "RESET", "'for every string' includes the second string handed to one tokenizer: parse() re-initialises every scanner field "
+                 "(text, cursor, current, lookahead) before the first use (same rule as C05-R1)", reference=4)
+    tp_parse = methods.get("parse")
+    ctx.require(tp_parse is not None, "TokenParser.parse missing")
+    scratch_rule(ctx, r, tp_parse)
     ctx.borrow("c05", "C05-R2", "C08-R6", "'a command string and the equivalent argv list are indistinguishable' also the second time the same list is wrapped: the argv "
                "wrapper (like every consumer of raw arguments) works on a copy and never pops from the caller's list")
     return ctx.results
